@@ -130,6 +130,9 @@ def verify_function(key, tier='quick', keep_terms=False, discharge=True):
                 for i, en in enumerate(c.ensures):
                     g = E.spec_bool(st, en, envr)
                     st.prove('post#%d' % i, g, kind='post', lineno=st.lineno)
+                for i, en in enumerate(getattr(c, 'checks', [])):
+                    g = E.spec_bool(st, en, envr)
+                    st.prove('check#%d' % i, g, kind='post', lineno=st.lineno)
                 ex.exits['normal'] += 1
                 if st.feasible(z3.BoolVal(True)):
                     res.feasible_exits += 1
